@@ -343,7 +343,7 @@ CONFIG = {
     "post_model": _c15_vm_sample,
     "timeout_search": 1500,
     "assumptions": [
-        "net/url is MODELLED on byte strings for a judged subset (Model/PagingUrl.v: Parse of a reference incl. scheme detection, first-segment-colon and bad-escape errors, host[:port] authorities, ResolveReference with Go 1.26 dot-segment removal, re-parse by http.NewRequest; fragments, user info, valid %-escapes or exotic bytes in a path, non-ASCII, opaque URLs are UNJUDGED) and compared with the real client on every followed link (raw path + raw query, byte for byte) and on random references; the association-list theorems (C15_exactly_once ...) still quantify over an abstract `render`/`resolve`, connected to the string level by C15_next_request_link_forms (forms </p?q>, <?q>, <http://h/p?q>, <//h/p?q>), C15_step_simulation and the all-histories refinement C15_string_loop_refines (hypotheses: the server answers indistinguishable requests alike; net/url-as-modelled and the abstract resolver agree on the links served); the path-relative form <./seg?q> is covered by the correspondence only",
+        "net/url is MODELLED on byte strings for a judged subset (Model/PagingUrl.v: Parse of a reference incl. scheme detection, first-segment-colon and bad-escape errors, host[:port] authorities, ResolveReference with Go 1.26 dot-segment removal, re-parse by http.NewRequest; fragments, user info, valid %-escapes or exotic bytes in a path, non-ASCII, opaque URLs are UNJUDGED) and compared with the real client on every followed link (raw path + raw query, byte for byte) and on random references; the association-list theorems (C15_exactly_once ...) still quantify over an abstract `render`/`resolve`, connected to the string level by C15_next_request_link_forms (forms </p?q>, <?q>, <http://h/p?q>, <//h/p?q>) and C15_next_request_dot_relative (<./seg?q>), C15_step_simulation and the all-histories refinement C15_string_loop_refines (hypotheses: the server answers indistinguishable requests alike; net/url-as-modelled and the abstract resolver agree on the links served)",
         "encoding/json is abstract: a response is (well-formed?, document length, body length, decoded items) as declared by the generator for the shapes it produces (natural, padded inside, `null` / `{\"tags\":null}` for an empty page, leading white space, a second document behind, truncated/ill-typed bodies); C15_limit_bytes assumes the stream decoder is self-delimiting on the document (decoding stops at its end; no proper prefix is accepted) -- the harness checks it with documents of limit-1, limit, limit+1 bytes incl. the 4 MiB default",
         "queries: the association-list model (url.Values.Set = replace) is refined by the string model of setQueryParams / QueryEscape / QueryUnescape (C15_set_query_params_verbatim, _read, C15_request_query_refines: for every key a registry looks up it reads what the association-list request says; lookup = first match of a lenient parse, as fakereg.ParseQueryLenient); bytes are < 256; the pre-fix lossy url.Values round trip is kept as mk_request_prefix (C15_lossy_query_refuted)",
         "the registry model's meaning of `last`: items after the entry named last; an unknown name is placed before the first greater item (= all greater items on a sorted registry, C15_last_on_sorted_registry); item names are non-empty and distinct",
